@@ -3,7 +3,7 @@
 # Confirms a sub-agent's seeded change in its scratch worktree (suite passes, demo fails with / passes without the change),
 # stores it under /verif/seeded/<label>/, runs our quick check(s) for the given properties against it in /repo, and reverts /repo.
 id=$1; label=$2; shift 2; props="$@"
-wt=/tmp/seed/$id
+wt=${SEEDROOT:-/tmp/seed}/$id
 export GOFLAGS=-mod=mod GOPROXY=off
 dst=/verif/seeded/$label; mkdir -p $dst
 cp -r $wt/_seed/* $dst/
@@ -14,19 +14,19 @@ exp=""; grep -qi synctest $dst/DEMO.md && exp="GOEXPERIMENT=synctest"
 log=$dst/confirm.log; : > $log
 echo "demo files: $demos ; packages: $pkgs ; env: $exp" | tee -a $log
 # 1. suite with change, demo moved aside
-mkdir -p /tmp/seed/aside_$id; for d in $demos; do mv $d /tmp/seed/aside_$id/$(echo $d | tr / _); done
+mkdir -p /tmp/aside_$id; for d in $demos; do mv $d /tmp/aside_$id/$(echo $d | tr / _); done
 go build ./... >> $log 2>&1 || echo "BUILD FAILED" | tee -a $log
 sf=$(go test -vet=off -count=1 ./... 2>&1 | tee -a $log | grep -c '^FAIL\|^--- FAIL')
 echo "existing suite with change: failing lines=$sf" | tee -a $log
-for d in $demos; do mv /tmp/seed/aside_$id/$(echo $d | tr / _) $d; done
+for d in $demos; do mv /tmp/aside_$id/$(echo $d | tr / _) $d; done
 # 2. demo with change
-env $exp timeout 300 go test -vet=off -count=1 -timeout 120s -run 'Seed|seed|SEED' $pkgs > /tmp/seed/demo_with_$id.log 2>&1; rc_with=$?
+env $exp timeout 300 go test -vet=off -count=1 -timeout 120s -run 'Seed|seed|SEED' $pkgs > /tmp/demo_with_$id.log 2>&1; rc_with=$?
 # 3. demo without change
 git apply -R $dst/patch.diff || echo "REVERSE APPLY FAILED" | tee -a $log
-env $exp timeout 300 go test -vet=off -count=1 -timeout 120s -run 'Seed|seed|SEED' $pkgs > /tmp/seed/demo_without_$id.log 2>&1; rc_without=$?
+env $exp timeout 300 go test -vet=off -count=1 -timeout 120s -run 'Seed|seed|SEED' $pkgs > /tmp/demo_without_$id.log 2>&1; rc_without=$?
 git apply $dst/patch.diff
 echo "demo with change exit=$rc_with (want non-zero); demo on original exit=$rc_without (want 0)" | tee -a $log
-tail -5 /tmp/seed/demo_with_$id.log >> $log
+tail -5 /tmp/demo_with_$id.log >> $log
 # 4. our checks
 cd /verif
 git -C /repo apply $dst/patch.diff || { echo "PATCH DOES NOT APPLY TO /repo" | tee -a $log; exit 1; }
